@@ -30,7 +30,7 @@ def discharged : List (String × String) := [
   ("flattenAnonPointer:an.references.allRefs", "callers are collected, then used as a set"),
   ("importExternalReferences:groupedRefs", "keys collected then sort.Strings"),
   ("importExternalReferences:opts.flattenContext.newRefs", "sampled only: the body inserts entries while ranging"),
-  ("importNewRef:partialAnalyzer.references.allRefs", "UpdateRef at distinct keys of the imported schema (updateRef_commutes)"),
+  ("importNewRef:partialAnalyzer.references.allRefs", "UpdateRef at distinct keys of the imported schema: importRebase_order_independent"),
   ("namePointers:opts.Spec.references.allRefs", "collected into a map, then ordered by DepthFirst (total order, depthFirst_perm)"),
   ("namesForParam:operations", "names collected then sort.Strings in namesFromKey: namesFromKey_order_independent"),
   ("normalizeRef:opts.Spec.references.allRefs", "UpdateRef at distinct analyzer keys: normalizeRef_order_independent"),
@@ -117,6 +117,14 @@ theorem reref_order_independent (ref : String) {keys keys' : List String} (hp : 
   refine rerefFold_perm ref hp ?_ d d' h
   have := keysApartB_sound _ hk
   exact (List.pairwise_map.1 this : keys.Pairwise fun a b => KeysApart (a, "") (b, ""))
+
+/-- `importNewRef` rebases the `$ref`s of the schema it imports, ranging over the `allRefs` map of a partial analyzer
+    (`UpdateRef` on the schema itself): every iteration order yields the same schema.  (`rebaseStep g` is the loop body
+    of `Flatten.importNewRef`: `Proofs.OrderIndep.importRebase_step_eq`.) -/
+theorem importRebase_order_independent (g : String × String → Outcome String) {refs refs' : List (String × String)}
+    (hp : refs.Perm refs') (hpw : refs.Pairwise SchemaKeysApart) (sch sch' : J)
+    (h : refs.foldlM (rebaseStep g) sch = .ok sch') : refs'.foldlM (rebaseStep g) sch = .ok sch' :=
+  rebaseFold_perm g hp hpw sch sch' h
 
 /-- `uniqifyName` ranges over the definitions for its case-insensitive membership test: the order is irrelevant -/
 theorem uniqifyName_order_independent (f : Facts) (x : Names.Ext) {defs defs' : List String} (hp : defs.Perm defs')
